@@ -501,6 +501,8 @@ class StmtMixin:
                 return list(v[1])
             if len(v) == 2 and (isinstance(v[0], str) and v[0] == 'range'):
                 return None
+            if v and isinstance(v[0], str) and v[0] in ('range', 'mapiter', 'generator', '$inf', '$default', 'record', '$U'):
+                return None      # engine-internal tagged values are not Python tuples
             return list(v)
         if isinstance(v, Ref):
             h = st.obj(v)
